@@ -124,7 +124,14 @@ type toC struct {
 	pause  int
 }
 
+type schedC struct {
+	fid, spec, seed, filter int
+}
+
+var cronSpecs = map[int]string{1: "* * * * *", 2: "*/15 * * * *", 3: "@hourly", 4: "@daily", 5: "0,30 * * * *"}
+
 type ecfg struct {
+	scheds []schedC
 	steps  []stepC
 	cbs    []cbC
 	tos    []toC
@@ -161,6 +168,8 @@ func parseCfg(items []string) *ecfg {
 			c.hookOr = append(c.hookOr, atoi(f[1]))
 		case "D":
 			c.del = atoi(f[1])
+		case "Z":
+			c.scheds = append(c.scheds, schedC{atoi(f[1]), atoi(f[2]), atoi(f[3]), atoi(f[4])})
 		case "O":
 			for _, kv := range strings.Split(f[1], ",") {
 				p := strings.SplitN(kv, "=", 2)
@@ -620,6 +629,52 @@ func (e *engine) doOp(op string) {
 		e.stepProc(p)
 	case "crash":
 		e.crash(atoi(f[1]))
+	case "sched", "schedbad":
+		inst, fid := atoi(f[1]), atoi(f[2])
+		var sc *schedC
+		for i := range e.c.scheds {
+			if e.c.scheds[i].fid == fid {
+				sc = &e.c.scheds[i]
+			}
+		}
+		if sc == nil {
+			panic("no schedule configured for foreign ID " + f[2])
+		}
+		spec := cronSpecs[sc.spec]
+		if f[0] == "schedbad" {
+			spec = "not a cron spec"
+		}
+		opts := []workflow.ScheduleOption[Obj, st]{workflow.WithScheduleInitialValue[Obj, st](&Obj{Seed: sc.seed})}
+		if sc.filter != 0 {
+			code := 7000000 + fid
+			opts = append(opts, workflow.WithScheduleFilter[Obj, st](func(ctx context.Context) (bool, error) {
+				n := e.attempt(code, "")
+				ans := n >= sc.filter
+				e.userTok(code, &workflow.Record{}, map[bool]string{true: "r1", false: "r0"}[ans])
+				return ans, nil
+			}))
+		}
+		ret := make(chan error, 1)
+		before := len(e.wfs[inst].States())
+		go func() { ret <- e.wfs[inst].Schedule(fmt.Sprintf("f%d", fid), spec, opts...) }()
+		if f[0] == "schedbad" {
+			api(<-ret)
+			if len(e.wfs[inst].States()) != before {
+				s.trace = append(s.trace, "API=-1") // a rejected schedule must not start anything
+			}
+			return
+		}
+		// Schedule blocks for the life of the workflow; its process parks at its first Await
+		select {
+		case err := <-ret:
+			api(err)
+		case req := <-s.reqCh:
+			if req.kind != "AW" {
+				panic("expected the scheduler's AW, got " + req.kind)
+			}
+			req.p.parked = req
+			api(nil)
+		}
 	case "lose":
 		// the role scheduler revokes the lease of a parked process; the process notices at its next step
 		pu := strings.SplitN(f[1], "/", 2)
